@@ -105,7 +105,7 @@ static std::vector<int> weights(std::initializer_list<std::pair<int, int>> l) {
 }
 
 bool profile_known(const std::string &p) {
-  static const char *known[] = {"C01", "C03", "C05", "C06", "C07", "C08", "C09", "C10", "C12", "C13", "C14", "C14B", "C16", "C17", "C20", "C11", "C07B", "SMOKE"};
+  static const char *known[] = {"C01", "C03", "C05", "C06", "C07", "C08", "C09", "C10", "C12", "C13", "C14", "C14B", "C16", "C17", "C20", "C11", "C07B", "C16B", "SMOKE"};
   for (auto k : known) if (p == k) return true;
   return false;
 }
